@@ -895,6 +895,38 @@ func c15RstFilter(s []byte) []byte {
 	return out
 }
 
+// c15RstSplit transcribes decodeScan's collection loop since fix 4dc30ed (intervals cut at RSTn; joined when DRI = 0).
+func c15RstSplit(ri int, s []byte) [][]byte {
+	var out [][]byte
+	cur := []byte{}
+	for i := 0; i < len(s); i++ {
+		b := s[i]
+		if b != 0xFF {
+			cur = append(cur, b)
+			continue
+		}
+		if i+1 >= len(s) {
+			cur = append(cur, b)
+			break
+		}
+		i++
+		b2 := s[i]
+		if b2 == 0 {
+			cur = append(cur, b, b2)
+		} else if b2 >= 0xD0 && b2 <= 0xD7 {
+			out = append(out, cur)
+			cur = []byte{}
+		} else {
+			break
+		}
+	}
+	out = append(out, cur)
+	if ri == 0 {
+		return [][]byte{bytes.Join(out, nil)}
+	}
+	return out
+}
+
 func c15Correspondence(c *hx.Ctx) {
 	// cell maps: which data unit each pixel shows
 	dims := []int{1, 7, 8, 9, 15, 16, 17, 23, 24, 25, 31, 32, 33}
@@ -927,18 +959,42 @@ func c15Correspondence(c *hx.Ctx) {
 			}
 		}
 		c.Case("jpg-rstfilter "+hx.Hex(s), "ok "+hx.Hex(c15RstFilter(s)))
+		ri := c.R.Intn(3)
+		var parts []string
+		for _, iv := range c15RstSplit(ri, s) {
+			parts = append(parts, hx.Hex(iv))
+		}
+		c.Case(fmt.Sprintf("jpg-rstsplit %d %s", ri, hx.Hex(s)), "ok "+strings.Join(parts, " "))
 	}
-	// the transcription above against the real decoder: a stream with RSTn markers decodes exactly like the
-	// same stream with the scan replaced by the filtered scan (and the DRI segment kept)
+	for _, ri := range []int{1, 2, 3, 7} {
+		// the MCU loop's bookkeeping, transcribed: interval++ before MCU n when n > 0 && n%ri == 0
+		iv := 0
+		for n := 0; n < 20; n++ {
+			reset := 0
+			if ri > 0 && n > 0 && n%ri == 0 {
+				iv++
+				reset = 1
+			}
+			c.Case(fmt.Sprintf("jpg-mcuinterval %d %d", ri, n), fmt.Sprintf("ok %d %d", iv, reset))
+		}
+	}
+	// the restart model against the real decoder: the same quantised coefficients coded with and without restart
+	// intervals (reference encoder) must decode to identical bytes — cut at RSTn, DC predictors reset, pad bits dropped
 	for k := 0; k < 24; k++ {
-		s, _ := c15RefStream(c, c.R.Range(9, 40), c.R.Range(9, 40), c.R.Pick([]int{1, 3}), c.R.Intn(4), 75, 0, 2|(k&1))
-		i := bytes.Index(s, []byte{0xFF, 0xDA})
-		hdr := i + 2 + (int(s[i+2])<<8 | int(s[i+3]))
-		filtered := append(append([]byte{}, s[:hdr]...), c15RstFilter(s[hdr:])...)
-		filtered = append(filtered, 0xFF, 0xD9)
-		a, aw, ah, ac, ae := baseline.Decode(s)
-		b, bw2, bh, bc, be := baseline.Decode(filtered)
-		same := (ae == nil) == (be == nil) && aw == bw2 && ah == bh && ac == bc && bytes.Equal(a, b)
+		w, h, comps, si := c.R.Range(9, 40), c.R.Range(9, 40), c.R.Pick([]int{1, 3}), c.R.Intn(4)
+		px := c11Pack(c11Content(c.R, w, h, comps, 8, k%4), 8)
+		qt := c15ScaledTables(75)
+		mk := func(restart int) []byte {
+			o := &c15Opts{W: w, H: h, QT: qt, GreyID: 1, Restart: restart, Optimise: k&1 != 0}
+			if comps == 1 {
+				o.QT = qt[:1]
+			}
+			o.Planes = c15FromImage(px, w, h, comps, c15Samplings[si].H, c15Samplings[si].V, qt)
+			return c15Encode(o)
+		}
+		a, aw, ah, ac, ae := baseline.Decode(mk(1 + c.R.Intn(4)))
+		b, bw2, bh, bc, be := baseline.Decode(mk(0))
+		same := ae == nil && be == nil && aw == bw2 && ah == bh && ac == bc && bytes.Equal(a, b)
 		c.Case("jpg-rstfilter-tie", fmt.Sprintf("ok %v", same))
 	}
 	// Gray.Pix repack index map of DecodeSimple, observed: extended.Decode of an 8-bit grey stream
@@ -1029,8 +1085,8 @@ func c15(c *hx.Ctx) {
 			}
 			for si := range c15Samplings {
 				variant := c.R.Intn(128)
-				if (w+h+si)%3 != 0 {
-					variant &^= 2 // most streams without restart intervals
+				if (w+h+si)%2 != 0 {
+					variant &^= 2 // half of the streams without restart intervals
 				}
 				comps := 3
 				if si == 0 && (w+h)%2 == 0 {
